@@ -27,6 +27,7 @@ import (
 	"strconv"
 	"strings"
 	"sync"
+	"time"
 
 	"gopkg.in/yaml.v3"
 
@@ -665,19 +666,33 @@ func rootsEnds(n int) []int {
 // =====================================================================================================
 
 type outcome struct {
-	kind string // drop | rate | det | det+drop
+	kind string // drop | rate | det | det+drop | dyn
 	n    int
 }
 
-func (o outcome) yaml() string {
+const dynYAML = "Sampler: {DynamicSampler: {SampleRate: %d, FieldList: [f], ClearFrequency: 24h}}"
+
+// forValidation: config.ValidateRules does not list DeterministicSampler among the valid children of a rule's
+// Sampler (although the config structs, SamplerFactory.GetDownstreamSampler and the repository's
+// TestRulesWithDeterministicSampler support it), so for the admission test only, a downstream DeterministicSampler
+// is rendered as a DynamicSampler stand-in. The configuration that is decoded and run is the real one.
+func (o outcome) yaml(forValidation bool) string {
 	switch o.kind {
 	case "drop":
 		return "Drop: true"
 	case "rate":
 		return fmt.Sprintf("SampleRate: %d", o.n)
+	case "dyn":
+		return fmt.Sprintf(dynYAML, o.n)
 	case "det":
+		if forValidation {
+			return fmt.Sprintf(dynYAML, o.n)
+		}
 		return fmt.Sprintf("Sampler: {DeterministicSampler: {SampleRate: %d}}", o.n)
 	case "det+drop":
+		if forValidation {
+			return "Drop: true, " + fmt.Sprintf(dynYAML, o.n)
+		}
 		return fmt.Sprintf("Drop: true, Sampler: {DeterministicSampler: {SampleRate: %d}}", o.n)
 	}
 	panic(o.kind)
@@ -693,11 +708,13 @@ type rule struct {
 
 type ruleset []rule
 
-func (rs ruleset) yaml() string {
+func (rs ruleset) yaml() string { return rs.render(false) }
+
+func (rs ruleset) render(forValidation bool) string {
 	var b strings.Builder
 	b.WriteString("RulesVersion: 2\nSamplers:\n  __default__:\n    RulesBasedSampler:\n      Rules:\n")
 	for _, r := range rs {
-		fmt.Fprintf(&b, "        - {Name: %s, %s", r.name, r.out.yaml())
+		fmt.Fprintf(&b, "        - {Name: %s, %s", r.name, r.out.yaml(forValidation))
 		if r.scope != "" {
 			b.WriteString(", Scope: " + r.scope)
 		}
@@ -718,7 +735,7 @@ func (rs ruleset) yaml() string {
 
 func (rs ruleset) usesRand() bool {
 	for _, r := range rs {
-		if r.out.kind == "rate" {
+		if r.out.kind == "rate" || r.out.kind == "dyn" {
 			return true
 		}
 	}
@@ -731,7 +748,7 @@ var rulesMeta *config.Metadata
 func build(rs ruleset) (sample.Sampler, *config.RulesBasedSamplerConfig, bool) {
 	y := rs.yaml()
 	var m map[string]any
-	if err := yaml.Unmarshal([]byte(y), &m); err != nil {
+	if err := yaml.Unmarshal([]byte(rs.render(true)), &m); err != nil {
 		ev.Harness("generated YAML does not parse: %v\n%s", err, y)
 	}
 	for _, res := range rulesMeta.ValidateRules(m) {
@@ -928,6 +945,7 @@ type obs struct {
 	rate   uint
 	keep   bool
 	reason string
+	key    string
 }
 
 func classify(rs ruleset, reason string) int {
@@ -943,11 +961,15 @@ func classify(rs ruleset, reason string) int {
 }
 
 func call(s sample.Sampler, rs ruleset, t *traceD) obs {
-	rate, keep, reason, _ := s.GetSampleRate(t.real)
-	return obs{classify(rs, reason), rate, keep, reason}
+	rate, keep, reason, key := s.GetSampleRate(t.real)
+	return obs{classify(rs, reason), rate, keep, reason, key}
 }
 
 var detRef = map[int]*sample.DeterministicSampler{}
+
+// a stand-alone DynamicSampler per goal rate: what the downstream sampler of a `dyn` rule must answer (only used
+// under randMu: a trace-key builder is not goroutine safe)
+var dynRef = map[int]sample.Sampler{}
 
 func detExpect(n int, t *traceD) (uint, bool) {
 	rate, keep, _, _ := detRef[n].GetSampleRate(t.real)
@@ -1055,7 +1077,8 @@ func condSig(c cond, t *traceD, implMatched bool) string {
 	}
 	sort.Strings(ks)
 	vk := fmt.Sprintf("%T", c.val.v)
-	return fmt.Sprintf("cond-mismatch/%s/datatype=%s/value-type=%s/span-values=%s/impl=%s", c.op, dt, vk, strings.Join(ks, "+"), mm(implMatched))
+	_ = ks // the kinds of span values involved are in the violation text, not in the class
+	return fmt.Sprintf("cond-mismatch/%s/datatype=%s/value-type=%s/impl=%s", c.op, dt, vk, strings.ReplaceAll(mm(implMatched), " ", "-"))
 }
 
 type ctx struct {
@@ -1097,6 +1120,21 @@ func (x *ctx) outcomeOK(chosen int, t *traceD, o obs, keepsByDraw []bool) (bool,
 			return false, fmt.Sprintf("a SampleRate %d rule must keep for exactly 1 of the %d values of the draw (kept for %d of %d)", out.n, out.n, k, len(keepsByDraw))
 		}
 		return true, ""
+	case "dyn": // "if the rule specifies a downstream Sampler, that sampler is used to determine the sample rate"
+		er, _, _, ekey := dynRef[out.n].GetSampleRate(t.real) // caller holds randMu
+		if o.rate != er || o.key != ekey {
+			return false, fmt.Sprintf("a stand-alone DynamicSampler(goal %d) says rate %d key %q for this trace", out.n, er, ekey)
+		}
+		k := 0
+		for _, b := range keepsByDraw {
+			if b {
+				k++
+			}
+		}
+		if len(keepsByDraw) != int(er) || k != 1 {
+			return false, fmt.Sprintf("the downstream DynamicSampler at rate %d must keep for exactly 1 of the %d values of the draw (kept for %d of %d)", er, er, k, len(keepsByDraw))
+		}
+		return true, ""
 	default: // det, det+drop: "if the rule specifies a downstream Sampler, that sampler is used"
 		er, ek := detExpect(out.n, t)
 		if o.rate == er && o.keep == ek {
@@ -1112,10 +1150,19 @@ func (x *ctx) judge(ti int, t *traceD) {
 	var keepsByDraw []bool
 	if x.rand {
 		randMu.Lock()
-		rand.Seed(seedFor(2, 0))
-		o = call(x.s, x.rs, t)
-		if o.chosen >= 0 && x.rs[o.chosen].out.kind == "rate" {
+		o = call(x.s, x.rs, t) // which rule / which rate: independent of the draw (verified below)
+		if o.chosen >= 0 && (x.rs[o.chosen].out.kind == "rate" || x.rs[o.chosen].out.kind == "dyn") {
+			o.keep = false // this call's draw was not owned: the keep flag is taken from the enumerated draws only
+		}
+		if o.chosen >= 0 && (x.rs[o.chosen].out.kind == "rate" || x.rs[o.chosen].out.kind == "dyn") {
 			n := x.rs[o.chosen].out.n
+			if x.rs[o.chosen].out.kind == "dyn" {
+				n = int(o.rate) // the downstream sampler's own rate (its goal rate as long as it has not adjusted)
+				if n < 1 || n > 3 {
+					randMu.Unlock()
+					ev.Harness("unexpected rate %d from an untrained downstream DynamicSampler\n%s", n, x.rs.yaml())
+				}
+			}
 			for d := 0; d < n; d++ {
 				rand.Seed(seedFor(n, d))
 				od := call(x.s, x.rs, t)
@@ -1140,7 +1187,13 @@ func (x *ctx) judge(ti int, t *traceD) {
 	var why string
 	ok := contains(perm, o.chosen)
 	if ok {
+		if x.rand {
+			randMu.Lock() // the stand-alone reference DynamicSampler draws, too
+		}
 		ok, why = x.outcomeOK(o.chosen, t, o, keepsByDraw)
+		if x.rand {
+			randMu.Unlock()
+		}
 		if ok {
 			return
 		}
@@ -1194,22 +1247,46 @@ func names(rs ruleset, p []int) []string {
 	return out
 }
 
-// run one configuration over a trace list
-func runConfig(r *ev.Run, rs ruleset, traces []*traceD, base int64) {
-	s, _, ok := build(rs)
-	if !ok {
-		r.Add("configs_rejected_by_validation", 1)
-		return
-	}
-	r.Add("configs", 1)
-	x := &ctx{r: r, rs: rs, pr: prep(rs), s: s, rand: rs.usesRand(), base: base}
-	for ti, t := range traces {
-		x.judge(ti, t)
-	}
-	r.Add("cases", int64(len(traces)))
-	r.Add("draws_enumerated", x.nDraws)
-	r.Add("cases_with_unspecified_leeway", x.nLeeway)
-	r.Add("cases_fully_decided_by_the_documents", x.nDecided)
+// a configuration built once and shared by the workers that each judge one block of its traces
+// (RulesBasedSampler.GetSampleRate only reads its configuration; configurations with a downstream
+// DynamicSampler or a random draw are serialised by randMu anyway)
+type builtCfg struct {
+	once sync.Once
+	s    sample.Sampler
+	ok   bool
+	pr   []preRule
+}
+
+// runPhase: nConfigs configurations x traces, split into blocks of traces so that the engine has enough
+// work items to keep every worker busy; (config, trace) is judged exactly once.
+func runPhase(r *ev.Run, phase string, nConfigs, blocks int, mk func(i int) (ruleset, []*traceD), stride int, base int64) {
+	cache := make([]builtCfg, nConfigs)
+	enumx.Each(r, phase, []int{nConfigs, blocks}, 16, func(idx []int) {
+		ci, b := idx[0], idx[1]
+		rs, traces := mk(ci)
+		c := &cache[ci]
+		c.once.Do(func() {
+			c.s, _, c.ok = build(rs)
+			if !c.ok {
+				r.Add("configs_rejected_by_validation", 1)
+				return
+			}
+			r.Add("configs", 1)
+			c.pr = prep(rs)
+		})
+		if !c.ok {
+			return
+		}
+		lo, hi := len(traces)*b/blocks, len(traces)*(b+1)/blocks
+		x := &ctx{r: r, rs: rs, pr: c.pr, s: c.s, rand: rs.usesRand(), base: base + int64(ci)*int64(stride)}
+		for ti := lo; ti < hi; ti++ {
+			x.judge(ti, traces[ti])
+		}
+		r.Add("cases", int64(hi-lo))
+		r.Add("draws_enumerated", x.nDraws)
+		r.Add("cases_with_unspecified_leeway", x.nLeeway)
+		r.Add("cases_fully_decided_by_the_documents", x.nDecided)
+	})
 }
 
 // =====================================================================================================
@@ -1289,6 +1366,14 @@ func main() {
 		d.Start()
 		detRef[n] = d
 	}
+	for _, n := range []int{2} {
+		mc := &config.MockConfig{GetSamplerTypeVal: &config.DynamicSamplerConfig{SampleRate: int64(n), FieldList: []string{"f"}, ClearFrequency: config.Duration(24 * time.Hour)}, GetSamplerTypeName: "DynamicSampler"}
+		f := &sample.SamplerFactory{Config: mc, Logger: &logger.NullLogger{}, Metrics: &metrics.NullMetrics{}}
+		f.Start()
+		if dynRef[n] = f.GetSamplerImplementationForKey("env"); dynRef[n] == nil {
+			ev.Harness("no stand-alone DynamicSampler")
+		}
+	}
 	// two trace ids: one kept and one dropped by a DeterministicSampler at rate 2
 	idKept, idDropped := "", ""
 	for i := 0; idKept == "" || idDropped == ""; i++ {
@@ -1338,45 +1423,69 @@ func main() {
 	phase3Traces = append(phase3Traces, genTraces(2, tinyF, tinyG, rootsEnds, idDropped)...)
 
 	var base int64
+	phaseWall := map[string]float64{}
+	tPhase := time.Now()
+	lap := func(name string) {
+		phaseWall[name] = float64(time.Since(tPhase).Milliseconds()) / 1000
+		tPhase = time.Now()
+	}
+	lap("setup")
 	// ---- phase 1: one rule, one condition: every operator x datatype x value x field form x scope
 	conds := allConds()
 	scopes := []string{"trace", "span"}
-	enumx.Each(r, "phase1", []int{len(conds), len(scopes)}, 16, func(idx []int) {
-		c := conds[idx[0]]
-		rs := ruleset{{name: "R1X", scope: scopes[idx[1]], conds: []cond{c}, out: outcome{"drop", 0}}}
-		runConfig(r, rs, phase1Traces, base+int64(idx[0]*len(scopes)+idx[1])*int64(len(phase1Traces)))
+	runPhase(r, "phase1", len(conds)*len(scopes), 4, func(i int) (ruleset, []*traceD) {
+		c := conds[i/len(scopes)]
+		return ruleset{{name: "R1X", scope: scopes[i%len(scopes)], conds: []cond{c}, out: outcome{"drop", 0}}}, phase1Traces
+	}, len(phase1Traces), base)
+	for _, c := range conds {
 		r.Distinct("distinct_nontrivial", "p1|"+c.op+"|"+c.dt+"|"+c.val.yaml)
-	})
+	}
 	base += int64(len(conds)*len(scopes)) * int64(len(phase1Traces))
+	lap("phase1")
 
 	// ---- phase 2: one rule, two conditions (all ordered pairs of the representative set) x scope
 	rc := reprConds()
-	enumx.Each(r, "phase2", []int{len(rc), len(rc), len(scopes)}, 16, func(idx []int) {
-		rs := ruleset{{name: "R1X", scope: scopes[idx[2]], conds: []cond{rc[idx[0]], rc[idx[1]]}, out: outcome{"drop", 0}}}
-		runConfig(r, rs, phase2Traces, base+int64((idx[0]*len(rc)+idx[1])*len(scopes)+idx[2])*int64(len(phase2Traces)))
-	})
+	runPhase(r, "phase2", len(rc)*len(rc)*len(scopes), 16, func(i int) (ruleset, []*traceD) {
+		sc, pair := scopes[i%len(scopes)], i/len(scopes)
+		return ruleset{{name: "R1X", scope: sc, conds: []cond{rc[pair/len(rc)], rc[pair%len(rc)]}, out: outcome{"drop", 0}}}, phase2Traces
+	}, len(phase2Traces), base)
 	base += int64(len(rc)*len(rc)*len(scopes)) * int64(len(phase2Traces))
+	lap("phase2")
 
 	// ---- phase 3: two rules (first match wins) x rule outcomes, every value of the draw
-	outs1 := []outcome{{"drop", 0}, {"rate", 1}, {"rate", 2}, {"rate", 3}, {"det", 1}, {"det", 2}, {"det+drop", 2}}
-	outs2 := []outcome{{"drop", 0}, {"rate", 2}, {"det", 2}, {"rate", 1}}
+	outs1 := []outcome{{"drop", 0}, {"rate", 1}, {"rate", 2}, {"rate", 3}, {"det", 1}, {"det", 2}, {"det+drop", 2}, {"dyn", 2}}
+	outs2 := []outcome{{"drop", 0}, {"rate", 2}, {"det", 2}, {"rate", 1}, {"dyn", 2}}
 	r1c := []cond{rc[0], rc[1], rc[3], rc[6], rc[8], rc[15], rc[19], rc[21], rc[26], rc[28]}
 	r2c := []*cond{nil, &rc[1], &rc[5], &rc[6], &rc[10], &rc[29]}
-	enumx.Each(r, "phase3", []int{len(r1c), len(scopes), len(outs1), len(r2c), len(outs2)}, 16, func(idx []int) {
+	dims3 := []int{len(r1c), len(scopes), len(outs1), len(r2c), len(outs2)}
+	n3 := 1
+	for _, d := range dims3 {
+		n3 *= d
+	}
+	runPhase(r, "phase3", n3, 4, func(i int) (ruleset, []*traceD) {
+		idx := make([]int, len(dims3))
+		for d, x := len(dims3)-1, i; d >= 0; d-- {
+			idx[d] = x % dims3[d]
+			x /= dims3[d]
+		}
 		r1 := rule{name: "R1X", scope: scopes[idx[1]], conds: []cond{r1c[idx[0]]}, out: outs1[idx[2]]}
 		r2 := rule{name: "R2Y", out: outs2[idx[4]]}
 		if c := r2c[idx[3]]; c != nil {
 			r2.conds = []cond{*c}
 		}
-		k := (((idx[0]*len(scopes)+idx[1])*len(outs1)+idx[2])*len(r2c)+idx[3])*len(outs2) + idx[4]
 		trs := phase3Kept
-		if (r1.out.kind != "drop" && r1.out.kind != "rate" && r1.out.n == 2) || (r2.out.kind == "det") {
+		if ((r1.out.kind == "det" || r1.out.kind == "det+drop") && r1.out.n == 2) || (r2.out.kind == "det") {
 			trs = phase3Traces
 		}
-		runConfig(r, ruleset{r1, r2}, trs, base+int64(k)*int64(len(phase3Traces)))
-		r.Distinct("distinct_nontrivial", "p3|"+outs1[idx[2]].String()+"|"+outs2[idx[4]].String())
-	})
-
+		return ruleset{r1, r2}, trs
+	}, len(phase3Traces), base)
+	for _, o1 := range outs1 {
+		for _, o2 := range outs2 {
+			r.Distinct("distinct_nontrivial", "p3|"+o1.String()+"|"+o2.String())
+		}
+	}
+	lap("phase3")
+	r.Set("phase_wall_s", phaseWall)
 	// ---- verdicts, in a deterministic order, the minimal (earliest enumerated) case per class
 	var sigs []string
 	for s := range viols {
@@ -1409,6 +1518,7 @@ func main() {
 		"UNSPECIFIED — a condition Value that cannot be converted to the declared Datatype (e.g. Datatype int with Value a/true/\"\"/a list), bool Datatype with a non-boolean Value or an ordering operator, in/not-in with Datatype bool or a scalar Value, has-root-span with a non-boolean Value, lists with comparison operators. NOTE: rules.md says 'Errors in conversion will result in the comparison evaluating to false' while the implementation silently falls back to the untyped comparison for such conditions (Init() error is only logged at debug level) — recorded, not alarmed, because validation-passing-but-nonsensical conditions are outside what the statement calls documented semantics",
 		"UNSPECIFIED — untyped comparison of a numeric span value with a fractional Value where 'convert the Value to the span's type' and plain numeric comparison disagree; numeric/boolean span value against a Value of another kind (except '=' against non-numeric text: false); '!=' where the documents say 'the comparison will fail'; negative operators (!=, not-in) when the span value cannot be converted to the Datatype; ordering of booleans; bool Datatype on the strings \"1\"/\"0\"/\"true\"/\"false\"",
 		"UNSPECIFIED — in/not-in without Datatype where exact (typed) equality and equality of rendered text disagree (1 vs \"1\"); `matches` where an unanchored and a fully anchored match disagree",
+		"config.ValidateRules does not list DeterministicSampler among the valid children of a rule's Sampler although the structs, SamplerFactory.GetDownstreamSampler and the repository's TestRulesWithDeterministicSampler support it: for the admission test only, such a rule is validated with a DynamicSampler stand-in; a downstream DynamicSampler (validator-accepted) is exercised as well, against a stand-alone DynamicSampler and with every draw value",
 		"the rate reported for a Drop rule is not checked (nothing documented); configurations rejected by config.ValidateRules (mixed-type lists) are skipped and counted",
 		"the draw: process-global math/rand, owned by re-seeding (randseednop=0) so that the first Intn(N) is each of 0..N-1; every sampler call of a configuration that can draw is serialised",
 		"which rule was applied is read from the reason string (it contains the rule's Name; 'no rule matched' otherwise), as the repository's own tests do",
